@@ -81,8 +81,16 @@ def mc_mem(run, thorough_too=True):
             run.model_check("Mem_" + c, "MC_Mem.tla", "MC_Mem_%s.cfg" % c)
 
 
+def mc_driver(run, neg):
+    # the expert drivers as a phase machine: the policy (the phases as coded) satisfies the safety layer that the trace validation
+    # evaluates on every recorded call; the negative controls must be reported violated
+    run.model_check("Driver", "SluDriver.tla", "SluDriver.cfg", coverage=False)
+    run.model_check("Driver_" + neg, "SluDriver.tla", "SluDriver_%s.cfg" % neg, expect_violation=True, coverage=False)
+
+
 def check_C05(run):
     mc_factor(run, ["q", "c"], ["p"])
+    mc_driver(run, "neg")
     g = Gen(run.seed * 1000 + 5)
     types = {"d": 0.85, "z": 0.8, "s": 0.35, "c": 0.35} if run.tier == "quick" else FULL_TYPES
     run.conform("gssvx", merge(F.fam_gssvx(g, "C05", sizes(run, 700, 5000), types), F.fam_factored(g, "C05", sizes(run, 160, 1600), {"d": 1.0, "z": 1.0, "s": 1.0, "c": 1.0})), ["C05.", "C18.unexpected_negative_info"])
@@ -172,6 +180,7 @@ def check_C14(run):
 
 def check_C15(run):
     mc_factor(run, ["q"], ["p"])
+    mc_driver(run, "neg2")         # (negative control: a return path of ?gsisx that forgets to restore A's row indices)
     g = Gen(run.seed * 1000 + 15)
     types = {"d": 0.85, "z": 0.45, "s": 0.35, "c": 0.35} if run.tier == "quick" else FULL_TYPES
     scen = merge(F.fam_ilu(g, "C15", sizes(run, 1500, 12000), types), F.fam_ilu_split(g, "C15", sizes(run, 300, 3000), types),
